@@ -18,7 +18,8 @@ ASSUMPTIONS = [
     "a task that keeps rescheduling a due task under an unlimited Step never returns (in the code as in the model: "
     "fuel); generated bodies avoid such livelocks",
 ]
-TRUSTED = ["tools/cxx2lean_eff.py (stage 2, DESIGN.md 0.7.1): world boundary (DoPoll, Interrupted, Clock::now, ::send, ::recv, SocketError opaque; handles dropped), C++ evaluation order, pointer = offset, string_view = (offset, length), objects = fields; Model/GenWorld.lean reads the model answers as C results",
+TRUSTED = ["tools/cxx2lean_eff.py stage 3 (DESIGN.md 0.7.2): StepTodos over the abstract deque/task interface Gen.TodoWorld (front()->when, pop_front after move, task->what(), empty() recognised by canonical text + provenance of the locals); Model/GenTodoWorld.lean reads the ToDo model as that interface; string_view = cursor + immutable end",
+           "tools/cxx2lean_eff.py (stage 2, DESIGN.md 0.7.1): world boundary (DoPoll, Interrupted, Clock::now, ::send, ::recv, SocketError opaque; handles dropped), C++ evaluation order, pointer = offset, string_view = (offset, length), objects = fields; Model/GenWorld.lean reads the model answers as C results",
            "tools/cxx2lean.py (source-derived tie, DESIGN.md 0.7): clang-14 JSON AST, chrono unit semantics read from the desugared types, unbounded Int for signed arithmetic (overflow = UB), abstract memcmp / container queries",
            "std::deque/std::shared_ptr semantics (modelled, not verified)"]
 ALL_TAGS = ["new", "newin", "newidle", "shift", "shiftd", "cancel", "drop", "stop", "clock", "ran",
